@@ -86,7 +86,7 @@ fn strict(cfg: &Cfg, model: &Model, tag: &str, it: &Item, k: usize, sk: &mut Sin
 }
 
 pub fn run(rep: &mut Report, thorough: bool) {
-    rep.rule = "(a) every distinct reply the responder produces for the base corpus (both transports, both IP versions), re-addressed to it; (b) protocol-marked replies built directly: ARP op 2, ICMP type 0, ICMPv6 129/136, every TCP flag set containing RST or equal to SYN|ACK, DNS all 32768 flag words with QR=1 x question counts 0..3 x answer counts 0..2, STUN all 65536 message-type words on 20- and 28-byte messages, SMB1 all 256 flag bytes x {negotiate, session setup}, SMB2 response flag x all 65536 commands, ONC-RPC message type all 256 low-byte values over TCP and UDP with reply bodies; (c) reflection chains m -> readdress(reply(m)) to silence (cap 4). Oracle: no reply unless the reference grammars say the bytes are a valid request that must be answered; chain length <= 2".into();
+    rep.rule = "(a) every distinct reply the responder produces for the base corpus (both transports, both IP versions), re-addressed to it; (b) protocol-marked replies built directly: ARP op 2, ICMP type 0, ICMPv6 129/136, every TCP flag set containing RST or equal to SYN|ACK, DNS all 32768 flag words with QR=1 x question counts 0..3 x answer counts 0..2, STUN all 65536 message-type words on 20- and 28-byte messages, SMB1 all 256 flag bytes x {negotiate, session setup}, SMB2 response flag x all 65536 commands, ONC-RPC message type all 256 low-byte values over TCP and UDP with reply bodies; (c) reflection chains m -> readdress(reply(m)) to silence (cap 4). Oracle: no reply unless the reference grammars say the bytes are a valid request that must be answered; chain length <= 2; ADDED LATER: STUN messages of class indication / response as later messages of a TCP connection identified as STUN, RPC reply bodies of 24..88 bytes from / to the portmapper port".into();
     rep.assumptions = vec![
         "SSH banners, Gh0st frames and FIN|ACK segments are not protocol-marked replies (those exchanges do not mark direction; C07 requires FIN|ACK to be answered by FIN|ACK) and are outside the chain clause".into(),
         "in the dedicated sweeps a reply on which the reference model abstains counts as a violation (the statement allows a reply only for a valid request of another protocol); the one exception is a well-formed DNS query followed by extra bytes, which is accepted as a valid DNS request".into(),
@@ -216,12 +216,20 @@ pub fn run(rep: &mut Report, thorough: bool) {
         };
         let c4 = match cli4() { Ip::V4(b) => b, _ => unreachable!() };
         let s4 = match srv4() { Ip::V4(b) => b, _ => unreachable!() };
-        strict_sweep(rep, &format!("arp-not-request-{}", tag), "ARP op 0..65535 except 1", 65535, "arp", &|i| {
-            let op = if i >= 1 { i + 1 } else { 0 } as u16;
-            let mut a = Arp::request(MAC_CLI, c4, s4);
+        strict_sweep(rep, &format!("arp-not-request-{}", tag), "ARP op 0..65535 except 1 x 5 address patterns (ordinary reply, gratuitous for the handled address, gratuitous for the peer, probe-shaped, sender = handled address)", 65535 * 5, "arp", &|i| {
+            let k = i % 65535;
+            let op = if k >= 1 { k + 1 } else { 0 } as u16;
+            let (spa, tpa) = match i / 65535 {
+                0 => (c4, s4),
+                1 => (s4, s4),
+                2 => (c4, c4),
+                3 => ([0, 0, 0, 0], s4),
+                _ => (s4, c4),
+            };
+            let mut a = Arp::request(MAC_CLI, spa, tpa);
             a.op = op;
-            a.tha = MAC_SRV;
-            eth(&MAC_SRV, &MAC_CLI, ET_ARP, &a.bytes())
+            a.tha = if i / 65535 == 1 { [0xff; 6] } else { MAC_SRV };
+            eth(if (i / 65535) % 2 == 1 { &[0xff; 6] } else { &MAC_SRV }, &MAC_CLI, ET_ARP, &a.bytes())
         });
         strict_sweep(rep, &format!("icmp-replies-{}", tag), "ICMP type 0 / ICMPv6 129 / 136 x code 0..255 x body lengths {4,8,24,32}", 3 * 256 * 4, "icmp", &|i| {
             let d = unrank(i, &[3, 256, 4]);
